@@ -64,8 +64,10 @@ def base_session(version):
 
 
 class Sc:
-    def __init__(self, name, stage, items, version=2, timeout_ms=0, handlers=(), decode_h=(), panic_h=(), default=False, wd=400):
+    def __init__(self, name, stage, items, version=2, timeout_ms=0, handlers=(), decode_h=(), panic_h=(), default=False, wd=400,
+                 must_succeed=(), cancelled=()):
         self.name, self.stage, self.items = name, stage, items
+        self.must_succeed, self.cancelled = list(must_succeed), list(cancelled)
         self.version, self.timeout_ms = version, timeout_ms
         self.handlers, self.decode_h, self.panic_h, self.default, self.wd = list(handlers), list(decode_h), list(panic_h), default, wd
 
@@ -98,8 +100,21 @@ class Sc:
                 steps.append(dict(op="user_shutdown", name=it[1]))
             elif it[0] == "raw":
                 steps.append(dict(op="write", hex=it[1].hex()))
+            elif it[0] == "rest":            # the remainder of a frame that was cut at it[2]
+                steps.append(dict(op="write", hex=self.frame_bytes(it[1])[it[2]:].hex()))
+            elif it[0] == "mute":
+                steps.append(dict(op="peer_mute"))
+            elif it[0] == "user_send_blind":
+                steps.append(dict(op="user_send", name=it[1], typ=it[2], noexpect=True))
+            elif it[0] == "user_cancel":
+                steps.append(dict(op="user_cancel", name=it[1]))
+            elif it[0] == "client_close":
+                steps.append(dict(op="client_close"))
         return dict(name=self.name, version=self.version, timeout_ms=self.timeout_ms, handlers=self.handlers,
                     decode_h=self.decode_h, panic_h=self.panic_h, default=self.default, watchdog_ms=self.wd, steps=steps)
+
+    def has(self, kind):
+        return any(it[0] == kind for it in self.items)
 
     # request ids are assigned 0,1,2,... in the order the requests are written
     def ids(self):
@@ -108,6 +123,7 @@ class Sc:
             if it[0] in ("expect", "user_send", "user_shutdown"):
                 out[it[1]] = n
                 n += 1
+            # ("user_send_blind"): the writer is blocked, the request is never written nor registered
         return out
 
     def frame_bytes(self, f):
@@ -123,6 +139,8 @@ class Sc:
                 out += b if it[1]["cut"] is None else b[:it[1]["cut"]]
             elif it[0] == "raw":
                 out += it[1]
+            elif it[0] == "rest":
+                out += self.frame_bytes(it[1])[it[2]:]
         return out
 
     def oracle_request(self, flags):
@@ -223,6 +241,38 @@ def scenarios(tier, rnd):
         # early reply: the answer arrives before the request exists
         out.append(Sc("early-reply/v%d" % version, "reply", pre_reply + [F(12, b"early", mid=2 if version == 2 else 0, ver=version),
                                                                        ("user_send", "u0", 2), F(12, b"late!", to="u0", ver=version)], version))
+        # keep-alive flood against a peer that has stopped reading: acks pile up in the write path
+        # (1 in the blocked Write + ackQueueSz queued); beyond that the ack must be dropped, not
+        # waited for.  Then the peer closes: Connect and every caller must return.
+        for nka in ((6, 7, 20) if not thorough else (5, 6, 7, 8, 20, 60)):
+            for tmo in (0, 300):
+                out.append(Sc("keepalive-flood/v%d/%d%s" % (version, nka, "/timeout" if tmo else ""), "keepalive-flood",
+                              pre_reply + [("mute",)] + [F(62, b"", mid=100 + k, ver=version) for k in range(nka)]
+                              + [("user_send_blind", "ub", 2), F(30, b"after", mid=7, ver=version)],
+                              version, timeout_ms=tmo))
+        # a reply split by the peer across the requester giving up (context cancelled) or the user
+        # closing the client: at a header byte, at the header/payload boundary, inside the payload.
+        # The process survives, the stream stays aligned (the next exchange works), Connect returns.
+        for n in (0, 24):
+            pl = payload(40 + n, n)
+            cuts = sorted(set(c for c in (5, 10, 10 + n // 2, 10 + n - 1) if 0 < c < 10 + n))
+            for c in cuts:
+                f = F(12, pl, to="u0", ver=version)[1]
+                out.append(Sc("reply-split/cancel/v%d/n%d/cut%d" % (version, n, c), "reply-split", pre_reply + [
+                    ("user_send", "u0", 2), ("frame", dict(f, cut=c)), ("user_cancel", "u0"), ("rest", f, c),
+                    ("user_send", "u1", 2), F(12, payload(9, 7), to="u1", ver=version)],
+                    version, must_succeed=["u1"], cancelled=["u0"]))
+                out.append(Sc("reply-split/close/v%d/n%d/cut%d" % (version, n, c), "reply-split", pre_reply + [
+                    ("user_send", "u0", 2), ("frame", dict(f, cut=c)), ("client_close",), ("rest", f, c)],
+                    version, cancelled=["u0"]))
+        # the same with an over-limit reply (header-only delivery) and with two requests outstanding
+        fbig = F(12, b"0123456789", to="u0", ver=version, claimed=LIMIT + 11)[1]
+        out.append(Sc("reply-split/cancel-oversize/v%d" % version, "reply-split", pre_reply + [
+            ("user_send", "u0", 2), ("frame", dict(fbig, cut=10)), ("user_cancel", "u0")], version, cancelled=["u0"]))
+        f = F(12, payload(50, 16), to="u0", ver=version)[1]
+        out.append(Sc("reply-split/cancel-two/v%d" % version, "reply-split", pre_reply + [
+            ("user_send", "u0", 2), ("user_send", "u1", 2), ("frame", dict(f, cut=14)), ("user_cancel", "u0"), ("rest", f, 14),
+            F(12, payload(9, 7), to="u1", ver=version)], version, must_succeed=["u1"], cancelled=["u0"]))
     # first message variants
     for name, pl, typ in (("conn-failed", bytes.fromhex("00f600160080000c0000000000000001010000060001"), 63),
                           ("no-conn-event", bytes.fromhex("00f600100080000c0000000000000001"), 63),
@@ -339,7 +389,13 @@ def property_check(sc, go, crash_log):
     # oversize reply must be an error; a success must carry the complete payload
     ids = sc.ids()
     for u in go.get("users") or []:
-        if u["kind"] != "send":
+        if not u["returned"]:
+            fails.append(("caller-stuck:%s" % sc.stage, "%s call %s did not return after the connection ended" % (u["kind"], u["name"])))
+            continue
+        if u["name"] in sc.must_succeed and u["err"] != "nil":
+            fails.append(("exchange-after-%s-fails" % sc.stage, "the request/reply exchange %s that follows must work (the stream "
+                          "is still aligned, the connection healthy); it returned %s (%s)" % (u["name"], u["err"], u["err_text"][:100])))
+        if u["kind"] != "send" or u["name"] in sc.cancelled:
             continue
         fr = [it[1] for it in sc.items if it[0] == "frame" and it[1]["to"] == u["name"]]
         if not fr:
@@ -355,8 +411,6 @@ def property_check(sc, go, crash_log):
                               "%d bytes (md5 %s)" % (u["typ"], u["dlen"], u["md5"], f["typ"], len(f["pl"]), md5(f["pl"]))))
             elif claimed != len(f["pl"]) and u["dlen"] != claimed:
                 fails.append(("reply-truncated-success", "SendMessage succeeded with %d bytes for a reply claiming %d" % (u["dlen"], claimed)))
-        if not u["returned"]:
-            fails.append(("caller-stuck:%s" % sc.stage, "SendMessage did not return after the connection ended"))
     return fails
 
 
@@ -371,6 +425,8 @@ def compare(sc, go, crash_log, model):
         return ["model predicts a panic, the process survived"]
     end = model["end"] if model["init"] == "ok" else "err"
     want = {"err": ("other", "ctx"), "closed": ("closed",), "wait-close": ("none",), "neg-blocked": ("none",)}.get(end, ("?",))
+    if sc.has("client_close"):
+        want = ("closed",)         # the user closed the client: not an event of the byte-stream model
     if go["connect"] not in want:
         diffs.append("Connect: go %s (%s), model %s" % (go["connect"], go["connect_text"][:80], end))
     # headers parsed
@@ -379,18 +435,22 @@ def compare(sc, go, crash_log, model):
     if model["init"] == "ok" and ghdr[1:] != mhdr and end not in ("closed",) and not (end == "err" and len(ghdr) - 1 >= len(mhdr) and ghdr[1:1 + len(mhdr)] == mhdr
                                                                                       and model["recs"] and model["recs"][-1]["cons"].endswith(":err")):
         diffs.append("headers parsed: go %s model %s" % (ghdr[1:][:6], mhdr[:6]))
-    # user calls, in order
-    mus = [r["cons"] for r in model["recs"] if r["cons"].startswith(("user:", "sd:"))]
-    gus = go.get("users") or []
-    answered = 0
-    for u in gus:
-        if u["err"] in ("closed", "ctx") or not u["returned"]:
-            continue                      # released by the close only: no record in the model
-        if answered >= len(mus):
-            diffs.append("user call %s returned %s, the model has no such delivery" % (u["name"], u["err"]))
-            break
-        m = mus[answered]
-        answered += 1
+    # user calls, matched by request id
+    ids = sc.ids()
+    gus = {ids[u["name"]]: u for u in (go.get("users") or []) if u["name"] in ids}
+    matched = set()
+    gave_up = set(sc.cancelled) | (set(ids) if sc.has("client_close") else set())
+    for r in model["recs"]:
+        m = r["cons"]
+        if not m.startswith(("user:", "sd:")):
+            continue
+        u = gus.get(r["hdr"][3])
+        if u is None:
+            diffs.append("model delivers %s for id %d, no such user call in go" % (m, r["hdr"][3]))
+            continue
+        matched.add(u["name"])
+        if u["name"] in gave_up:
+            continue                   # the caller stopped waiting: cancellation is not in the byte-stream model
         if m.startswith("user:ok:"):
             _, _, t, ln, h = m.split(":")
             if not (u["err"] == "nil" and u["typ"] == int(t) and u["dlen"] == int(ln) and u["md5"] == h):
@@ -401,8 +461,9 @@ def compare(sc, go, crash_log, model):
         elif m == "sd:ok":
             if u["err"] != "nil":
                 diffs.append("Shutdown %s: go %s (%s), model ok" % (u["name"], u["err"], u["err_text"][:80]))
-    if answered < len(mus) and end != "closed":
-        diffs.append("model delivers %d replies to user calls, go %d" % (len(mus), answered))
+    for u in go.get("users") or []:
+        if u["err"] == "nil" and u["name"] not in matched and end != "closed":
+            diffs.append("user call %s succeeded, the model has no delivery for it" % u["name"])
     # allocation: the model's count is an upper estimate of what make() was asked for
     mtotal = model["init_alloc"] + sum(r["alloc"] for r in model["recs"])
     if go["alloc"] > mtotal + MIB + 64 * 1024 * n_frames(sc) + 2 * LIMIT:
